@@ -80,7 +80,7 @@ func runC19(r *run) {
 				chain = append(chain, s)
 			}
 			v := c19Values[g.intn(len(c19Values))]
-			pos := g.intn(12)
+			pos := g.intn(15)
 			if pos == 9 && k == 0 {
 				pos = 0 // the filter tag needs a chain
 			}
@@ -130,6 +130,11 @@ func runC19(r *run) {
 		emit(caseT{"register", []string{hx("for")}})
 		for i := 0; i < 3; i++ {
 			emit(caseT{"register2", []string{hx(fmt.Sprintf("verifdup%d", i))}})
+		}
+		// a filter replaced between two renderings of the same text: every route uses the
+		// function that is registered at that moment
+		for i := 0; i < 6; i++ {
+			emit(caseT{"replacehist", []string{fmt.Sprint(i)}})
 		}
 	}
 	driveCases(r, gen, execC19)
@@ -226,6 +231,53 @@ func execC19(r *run, c caseT) {
 			r.reject(id, "a registered filter or tag name could be registered again (or the first registration is no longer what the name means)", map[string]any{"name": name, "observed": obs})
 		}
 		return
+	case "replacehist":
+		var i int
+		fmt.Sscanf(c.args[0], "%d", &i)
+		name := fmt.Sprintf("verifrepl%d", i)
+		mk := func(tag string) pongo2.FilterFunction {
+			return func(in *pongo2.Value, p *pongo2.Value) (*pongo2.Value, *pongo2.Error) {
+				return pongo2.AsValue(tag + in.String()), nil
+			}
+		}
+		if !pongo2.FilterExists(name) {
+			must(pongo2.RegisterFilter(name, mk("[1]")))
+		} else {
+			must(pongo2.ReplaceFilter(name, mk("[1]")))
+		}
+		set := pongo2.NewSet("replacehist", newMemLoader(map[string]string{"f.tpl": "{{ \"a\"|" + name + " }}/{% filter " + name + " %}a{% endfilter %}"}))
+		set.Debug = i%3 == 2
+		text := "{{ \"a\"|" + name + " }}/{% filter " + name + " %}a{% endfilter %}"
+		render := func() string {
+			var out string
+			var err error
+			switch i % 3 {
+			case 0:
+				out, err = set.RenderTemplateString(text, nil)
+			case 1:
+				out, err = set.RenderTemplateBytes([]byte(text), nil)
+			default:
+				out, err = set.RenderTemplateFile("f.tpl", nil)
+			}
+			if err != nil {
+				return "err:" + err.Error()
+			}
+			return out
+		}
+		first := render()
+		must(pongo2.ReplaceFilter(name, mk("[2]")))
+		second := render()
+		av, aerr := pongo2.ApplyFilter(name, pongo2.AsValue("a"), nil)
+		if aerr != nil {
+			must(aerr)
+		}
+		obs := first + " " + second + " " + av.String()
+		id := r.emit(c.op, c.args, obs)
+		r.nontrivial("replacehist" + c.args[0])
+		if first != "[1]a/[1]a" || second != "[2]a/[2]a" || av.String() != "[2]a" {
+			r.reject(id, "after ReplaceFilter a rendering of the same text (or a route within it) still used the replaced function", map[string]any{"first": first, "second": second, "apply_filter": av.String()})
+		}
+		return
 	case "reentrant":
 		w, src, ctx := worldFromArgs(c.args)
 		o, _ := w.render(src, false, ctx)
@@ -266,6 +318,21 @@ func execC19(r *run, c caseT) {
 		if neg {
 			ref = "{% macro m(p) %}<{{ p }}>{% endmacro %}{{ m(-rv) }}"
 		}
+	}
+	switch pos {
+	case 12:
+		// an element of a comma-separated list that is not the last one: the comma ends the chain
+		src = "{% macro m(p, q) %}<{{ p }}>{{ q }}{% endmacro %}{{ m(" + expr + ", \"t\") }}"
+		ref = "{% macro m(p, q) %}<{{ p }}>{{ q }}{% endmacro %}{{ m(rv, \"t\") }}"
+	case 13:
+		src = "{% for it in [" + expr + ", \"t\"] %}[{{ it }}]{% endfor %}"
+		ref = "{% for it in [rv, \"t\"] %}[{{ it }}]{% endfor %}"
+	case 14:
+		src = "{% macro m(p=" + expr + ", q=\"t\") %}<{{ p }}>{{ q }}{% endmacro %}{{ m() }}"
+		ref = "{% macro m(p, q) %}<{{ p }}>{{ q }}{% endmacro %}{{ m(rv, \"t\") }}"
+	}
+	if pos >= 12 && neg {
+		ref = strings.Replace(ref, "rv", "-rv", 1)
 	}
 	if pos == 10 {
 		// one pair among several of a with tag: the other pairs rebind names the chain's
